@@ -205,7 +205,7 @@ CLAIMS.update({
              "for n), and (companion file C07_Narrows) so it is for the two other admitted kinds, through the decision theorems of C05: C07_substring_append_narrows_ascii / _unicode "
              "(an occurrence of n ++ s is an occurrence of n) and C07_prefix_append_narrows; typing an upper-case letter onto a smart-case atom turns ignore_case off and still narrows (companion file C07_SmartCase: the case-insensitive haystack is the "
              "lower-cased case-sensitive one and the stored needle is its own lower case - fuzzy, substring and prefix atoms, C07_smart_case_flip_narrows_*); a change of the smart-normalization flag by the appended text narrows without case folding (companion file C07_NormFlip) but does NOT narrow under case folding (finding F16, repaired: characters whose case folding and "
-             "Latin normalization disagree; C07_normalization_flip_witness decides the witness in the model) - the repaired rule refuses the shortcut then (model normKept, C07_update_keeps_normalization), so the hypothesis Narrows of the protocol theorem is only needed for edits that keep the flag or drop ignore_case; for ASCII pattern text that hypothesis is a theorem end to end (companion files C07_AtomNarrows and C07_UpdateSound: C07_update_narrows_ascii - whenever the rule answers Update for t continued to t ++ s, every haystack matched by the pattern parsed from t ++ s is matched by the one parsed from t, through every stage of Atom::parse on continued text, changes of kind by a trailing $, an escaped \\$, the smart-case flip and one-character needles; it rests on C15_atom_decision, one decision predicate for all five kinds of atom); companion file C07_Sublist gives the general form for fuzzy atoms (the old needle survives as a subsequence of the new one, with or without the case flip), and the 'narrow' stream checks on the parser model, for every generated ASCII edit that takes the shortcut, that the atom in the last atom's place has one of the narrowing shapes (subsequence / infix / prefix of the kind, `$` turning fuzzy into postfix and the others into exact, case folding only switched off, normalization unchanged) and on the real code that no haystack matches the new pattern without matching the old one; a cancelling tick always hands the worker the current pattern. Convergence at the level of the worker (companion file C07_Quiescent, on the run contracts "
+             "Latin normalization disagree; C07_normalization_flip_witness decides the witness in the model) - the repaired rule refuses the shortcut then (model normKept, C07_update_keeps_normalization), so the hypothesis Narrows of the protocol theorem is only needed for edits that keep the flag or drop ignore_case; for ASCII pattern text that hypothesis is a theorem end to end (companion files C07_AtomNarrows and C07_UpdateSound: C07_update_narrows_ascii - whenever the rule answers Update for t continued to t ++ s, every haystack matched by the pattern parsed from t ++ s is matched by the one parsed from t, through every stage of Atom::parse on continued text, changes of kind by a trailing $, an escaped \\$, the smart-case flip and one-character needles; it rests on C15_atom_decision, one decision predicate for all five kinds of atom; C07_multi_update_narrows_ascii lifts it to multi-column patterns and companion file C07_NarrowsDischarged instantiates the hypothesis Narrows of C07_protocol with the worker's scoring function); companion file C07_Sublist gives the general form for fuzzy atoms (the old needle survives as a subsequence of the new one, with or without the case flip), and the 'narrow' stream checks on the parser model, for every generated ASCII edit that takes the shortcut, that the atom in the last atom's place has one of the narrowing shapes (subsequence / infix / prefix of the kind, `$` turning fuzzy into postfix and the others into exact, case folding only switched off, normalization unchanged) and on the real code that no haystack matches the new pattern without matching the old one; a cancelling tick always hands the worker the current pattern. Convergence at the level of the worker (companion file C07_Quiescent, on the run contracts "
              "of C06_RunContract): the bookkeeping invariant survives every run, completed or cancelled at any point (BK_run); a completed rebuilding run (rescoring after a "
              "non-appended edit or restart, or the empty pattern) makes the match list right from any such state (C07_rescore_establishes, C07_any_run_then_rescore); completed "
              "incremental runs keep it right (C07_unchanged_preserves, C07_update_preserves - the latter needs exactly the narrowing property the Update rule is about); and a right "
